@@ -20,6 +20,10 @@ W = "<state>w"
 INPUTS = {"<state>y", "<state>z", W}
 
 
+def P(*xs):
+    return ["prod", list(xs)]
+
+
 def CALL(f, args, kw=None):
     return ["call", V(f), list(args), kw or []]
 
@@ -69,6 +73,9 @@ def _gexpr(form):
         "call": CALL(f, [Y]), "callkw": CALL(f, [Y], [["k", Z]]), "pow": ["pow", CALL(f, [Y]), C(2)],
         "quot": CALL(g, [Y, CALL(f, [Z])]), "neg": ["prod", [C(-1), CALL(f, [C(0)])]], "statevar": Z,
         "pvar": CALL(f, [IF(CMP("<", Y, C(2)), CALL(f, [Y]), Z)]), "cmp": CMP("<", CALL(f, [Y]), C(3)),
+        # nested conditional expressions; the same conditional inside a branch of another one and again outside it
+        "ifnested": IF(CMP("<", Y, C(2)), IF(CMP("<", Z, C(2)), Z, P(C(-1), Z)), C(5)),
+        "ifrepeat": S(IF(CMP("<", Y, C(2)), IF(CMP("<", Z, C(2)), Z, P(C(-1), Z)), C(0)), IF(CMP("<", Z, C(2)), Z, P(C(-1), Z))),
     }[form]
 
 
@@ -81,7 +88,9 @@ def shape_programs(sh):
     out = []
     for ident in (["i"] if uses_loop or sh["loops"] == "none" else ["i", "tmp", "tmp_0"]):
         loops = {"none": [], "zero_to_var": [[ident, C(0), C(3)]], "var_to_var": [[ident, C(1), ["min", [S(Z, C(1)), C(3)]]]],
-                 "two_dependent": [[ident, C(0), C(2)], ["j", V(ident), C(2)]]}[sh["loops"]]
+                 "two_dependent": [[ident, C(0), C(2)], ["j", V(ident), C(2)]],
+                 "literal_then_var": [[ident, C(0), C(2)], ["j", C(0), ["min", [S(Z, C(1)), C(2)]]]],
+                 "three_mixed": [[ident, C(0), C(2)], ["j", C(0), C(2)], ["k", C(0), ["min", [S(Z, C(1)), C(2)]]]]}[sh["loops"]]
         guard = {"none": None, "cmp": CMP("<", Y, C(2)), "and": ["and", [CMP(">", Y, C(0)), CMP("<", Z, C(3))]],
                  "statecmp": CMP("<", Z, Y)}[sh["guard"]]
         if sh["kind"] == "assign":
